@@ -247,6 +247,35 @@ Proof. exact raw_list_semantics. Qed.
 Theorem C10_raw_reverse : forall s, exists s', raw_reverse s = (s', OkNone) /\ items s' = rev (items s).
 Proof. exact raw_reverse_spec. Qed.
 
+(* The dict views keys() / values() / items() of meta and raw_meta, after every history: iteration lists every
+   item in order (later duplicates of a key included): keys = map e_key of the filtered raw list, etc.;
+   len, reversed() and membership (= membership in that iteration) accordingly. *)
+Theorem C10_dict_views : forall its ops v which raw q,
+  let s := run true (mkst its []) ops in
+  In v (views s) ->
+  let L := map (dv_conv which raw) (filtered (v_tags v) (items s)) in
+  m_dict which raw q s v =
+  (s, Ok (match q with
+          | DIter => L
+          | DLen => [mkelem 0 0 (zlen L)]
+          | DReversed => rev L
+          | DIn x => [mkelem 0 0 (if existsb (fun y => elem_eqb y x) L then 1 else 0)]
+          end)).
+Proof.
+  intros its ops v which raw q s Hin. apply m_dict_spec.
+  exact (C10_view_inv_in_history its ops v Hin).
+Qed.
+
+(* model.view += values and model.raw_xs += values: list += on the (filtered) list; the self-assignment that
+   follows changes nothing (no view is dropped or rebuilt) *)
+Theorem C10_iadd_semantics : forall s v xs,
+  forallb (matches (v_tags v)) xs = true ->
+  (exists s', v_iadd s xs = (s', OkNone)
+              /\ filtered (v_tags v) (items s') = filtered (v_tags v) (items s) ++ xs)
+  /\ (exists s', raw_iadd s xs = (s', OkNone) /\ items s' = items s ++ xs
+                 /\ views s' = map (handle_splice (zlen (items s)) (zlen (items s)) xs) (views s)).
+Proof. exact iadd_spec. Qed.
+
 (* What harness/c10.py evaluates (inside Coq) on every state the implementation dumped: when the checker
    says true, the dumped state satisfies the hypothesis of the theorems above. *)
 Theorem C10_dumped_state_hypothesis_sound : forall s, all_inv_b s = true -> AllInv s.
